@@ -78,3 +78,48 @@ Example fixed_null_into_value_targets :
   /\ unmarshal 4 (TNative Id.timeuuid) None YTime = Ok (GTime zero_time_sec 0)
   /\ unmarshal 4 (TNative Id.decimal) (Some [0; 0; 0]) YDec = Err.
 Proof. repeat split; vm_compute; reflexivity. Qed.
+
+(* ---- why each remaining technical exclusion of [clean_native] / [dec_clean] is needed ------------------------ *)
+(* IPv4-mapped inet: the specification's 16-byte value comes back as the 4-byte address (net.IP.To4) *)
+Theorem v4_mapped_needed :
+  let b := [0;0;0;0;0;0;0;0;0;0;255;255;10;0;0;1] in
+  encode_native Id.inet (VBytes b) = Some b
+  /\ unmarshal_native Id.inet (Some b) YIP = Ok (GIP [10;0;0;1])
+  /\ denote_native Id.inet (GIP [10;0;0;1]) = Some (Some (VBytes [10;0;0;1])).
+Proof. cbv zeta. repeat split; vm_compute; reflexivity. Qed.
+
+(* the year-1 instant: Go's zero time.Time, which the documentation treats as "no value" *)
+Theorem year_one_needed :
+  encode_native Id.timestamp (VInt (-62135596800000)) = Some [255; 255; 199; 124; 237; 211; 40; 0]
+  /\ unmarshal_native Id.timestamp (Some [255; 255; 199; 124; 237; 211; 40; 0]) YTime = Ok (GTime (-62135596800) 0)
+  /\ denote_native Id.timestamp (GTime (-62135596800) 0) = None
+  /\ marshal_native Id.timestamp (GTime (-62135596800) 0) = Ok (Some []).
+Proof. repeat split; vm_compute; reflexivity. Qed.
+
+(* the empty blob read into a []byte target is the nil slice, which means null when bound *)
+Theorem empty_blob_needed :
+  encode_native Id.blob (VBytes []) = Some []
+  /\ unmarshal_native Id.blob (Some []) (YBytes false) = Ok (GBytes false None)
+  /\ denote_native Id.blob (GBytes false None) = Some None
+  /\ unmarshal_native Id.blob (Some []) (YBytes true) = Ok (GBytes true (Some [])).
+Proof. repeat split; vm_compute; reflexivity. Qed.
+
+(* a signalling NaN in a defined float32 type comes out quiet (Go converts through float64) *)
+Theorem snan_needed :
+  marshal_native Id.float (GF32 true 2139095041) = Ok (Some [127; 192; 0; 1])
+  /\ marshal_native Id.float (GF32 false 2139095041) = Ok (Some [127; 128; 0; 1])
+  /\ unmarshal_native Id.float (Some [127; 128; 0; 1]) (YF32 true) = Ok (GF32 true 2143289345).
+Proof. repeat split; vm_compute; reflexivity. Qed.
+
+(* a time.Time whose millisecond count overflows int64 wraps (year 292278995) *)
+Theorem ms_overflow_needed :
+  marshal_native Id.timestamp (GTime 9223372036854776 0) = Ok (Some [128; 0; 0; 0; 0; 0; 0; 192])
+  /\ encode_native Id.timestamp (VInt (9223372036854776 * 1000)) = None.
+Proof. split; vm_compute; reflexivity. Qed.
+
+(* a null element into a value (non-pointer) element target becomes the zero value, as documented *)
+Theorem null_into_value_elem_needed :
+  encode_value 4 (TList (TNative Id.int)) (VList [None]) = Some [0; 0; 0; 1; 255; 255; 255; 255]
+  /\ unmarshal 4 (TList (TNative Id.int)) (Some [0; 0; 0; 1; 255; 255; 255; 255]) (YSlice (YInt I32 false)) = Ok (GSlice (Some [GInt I32 false 0]))
+  /\ unmarshal 4 (TList (TNative Id.int)) (Some [0; 0; 0; 1; 255; 255; 255; 255]) (YSlice (YPtr (YInt I32 false))) = Ok (GSlice (Some [GPtr None])).
+Proof. repeat split; vm_compute; reflexivity. Qed.
